@@ -243,6 +243,24 @@ fn alphabet() -> Vec<String> {
         }
     }
     push(&filled("\u{e9}", 70000));
+    // over-long and just-fitting values wrapped in the quoting / white space the text attributes
+    // trim, so that byte offsets in the trimmed and the original value differ by 1, 2 or 3
+    for pre in ["", " ", "\"", " \"", "\t\t\t"] {
+        for suf in ["", "\""] {
+            // (the last two units are what the quoted-string grammar of the crate reads as one
+            // UTF8-NONASCII sequence: a lead character followed by continuation characters)
+            for unit in ["\u{e9}", "\u{4e2d}", "\u{1f600}", "\u{c3}\u{a9}", "\u{e9}\u{80}\u{80}"] {
+                for n in [509usize, 510, 511, 600, 763, 764, 765] {
+                    for lead in ["", "a"] {
+                        if pre.is_empty() && suf.is_empty() && lead.is_empty() && n < 600 {
+                            continue;
+                        }
+                        push(&format!("{}{}{}{}", pre, lead, filled(unit, n - lead.len()), suf));
+                    }
+                }
+            }
+        }
+    }
     // boundary lengths in characters (ErrorCode reason: fewer than 128 characters)
     for n in [127usize, 128, 129] {
         push(&"\u{e9}".repeat(n));
